@@ -17,11 +17,16 @@ The comparison rules (engine.exits.compare) are:
   exact   E reviewed  ->  an actual exit with the same label and the same atoms exists, and no other 'exact' exits
 """
 import re
+import hashlib
 from . import mir
 from .panics import Describer
 from .defuse import DefUse
 
 _CLOSURE_STACK = []
+# error-plumbing wrappers: the value (and whether it is a success or a failure) is that of the first argument
+_PASS_CALLS = {'Result::map_err', 'Option::ok_or_else', 'Option::ok_or'}
+_OKV = {'Ok', 'Some', 'Continue'}
+_ERRV = {'Err', 'None', 'Break'}
 _NEG = {'Eq': 'Ne', 'Ne': 'Eq', 'Lt': 'Ge', 'Ge': 'Lt', 'Gt': 'Le', 'Le': 'Gt'}
 _SYM = {'Eq': '==', 'Ne': '!=', 'Lt': '<', 'Le': '<=', 'Gt': '>', 'Ge': '>='}
 _TRAIT_CMP = {'eq': 'Eq', 'ne': 'Ne', 'lt': 'Lt', 'le': 'Le', 'gt': 'Gt', 'ge': 'Ge'}
@@ -88,6 +93,8 @@ class Exits:
         self.du = DefUse(body)
         self._cd = {}
         self._busy = set()
+        self._memo = {}
+        self._cyc = False
 
     # ---- describing values -------------------------------------------------------------------
     def call_desc(self, t, depth=0):
@@ -128,6 +135,11 @@ class Exits:
             return self.place(m.group(1), depth)
         m = re.match(r'^\((.*)\.(\d+): (.*)\)$', pl)
         if m:
+            vm = re.fullmatch(r'\((_\d+) as (\w+)\)', m.group(1).strip())
+            if vm and m.group(2) == '0' and vm.group(2) in _OKV | _ERRV:
+                pay = self.variant_payload(int(vm.group(1)[1:]), 'ok' if vm.group(2) in _OKV else 'err', depth)
+                if pay is not None:
+                    return pay
             base = self.place(m.group(1), depth)
             # (checked-op tuple).0 is the arithmetic result
             if re.match(r'^(Add|Sub|Mul)\(', base) and m.group(2) == '0':
@@ -143,52 +155,89 @@ class Exits:
             return '%s[%s]' % (self.place(m.group(1), depth), self.val(m.group(2), depth))
         return '_'
 
-    def project_local(self, loc, idx, depth):
+    def project_local(self, loc, idx, depth, guard=0):
+        """Component idx of a tuple-valued local, through moves, success payloads of visible values and alternatives."""
         ds = self.du.defs.get(loc, [])
-        if not ds or depth > 16:
+        if not ds or guard > 12:
             return None
         alts = set()
         for kind, bid, obj in ds:
             if kind != 'assign':
                 return None
             rhs = obj.rhs.strip()
-            if not (rhs.startswith('(') and rhs[1:].startswith(('move ', 'copy ', 'const '))):
-                return None
-            parts = mir.split_top(rhs[1:-1])
-            if idx >= len(parts):
-                return None
-            alts.add(self.val(parts[idx], depth + 1))
+            if rhs.startswith('(') and rhs[1:].startswith(('move ', 'copy ', 'const ')):
+                parts = mir.split_top(rhs[1:-1])
+                if idx >= len(parts):
+                    return None
+                alts.add(self.val(parts[idx], depth + 1))
+                continue
+            m = re.fullmatch(r'(?:move |copy )(_\d+)', rhs)
+            if m:
+                r = self.project_local(int(m.group(1)[1:]), idx, depth, guard + 1)
+                if r is None:
+                    return None
+                alts.add(r)
+                continue
+            m = re.fullmatch(r'(?:move |copy )\(\((_\d+) as (\w+)\)\.0: .*\)', rhs)
+            if m and m.group(2) in _OKV | _ERRV:
+                want = 'ok' if m.group(2) in _OKV else 'err'
+                vds = self.variant_defs(self.source_local(int(m.group(1)[1:])))
+                if not vds or any(c is None for c, _, _ in vds):
+                    return None
+                got = False
+                for c, b, pay in vds:
+                    if c != want or pay is None:
+                        continue
+                    pm = re.fullmatch(r'(?:move |copy )?(_\d+)', pay.strip())
+                    if not pm:
+                        return None
+                    r = self.project_local(int(pm.group(1)[1:]), idx, depth, guard + 1)
+                    if r is None:
+                        return None
+                    alts.add(r)
+                    got = True
+                if not got:
+                    return None
+                continue
+            return None
         return sorted(alts)[0] if len(alts) == 1 else '{' + ' | '.join(sorted(alts)) + '}'
 
     def local(self, loc, depth=0):
+        """Description of a local by how it is computed.  No depth cut-off (a cut-off is not invariant under moving code into a
+        helper): long descriptions are abbreviated to a prefix plus a digest of the full text; a local that is (transitively)
+        defined in terms of itself (loop-carried) is cut at the point of re-entry with `…`."""
         if loc in self.du.params:
             return 'arg%d' % loc
+        if loc in self._memo:
+            return self._memo[loc]
+        if loc in self._busy or depth > 150:
+            self._cyc = True
+            return '…'
         ds = self.du.defs.get(loc, [])
-        if depth > 16 or loc in self._busy:
-            return self.D.names.get(loc, '…')
-        if len(ds) == 1:
-            self._busy.add(loc)
-            try:
-                return self.def_desc(ds[0], depth)
-            finally:
-                self._busy.discard(loc)
         if not ds:
-            return self.D.names.get(loc, '_')
-        if loc in self.D.names:
-            return self.D.names[loc]
-        # compiler temporaries with several definitions: short-circuit flags, match results
+            return '_'
+        outer_cyc, self._cyc = self._cyc, False
         self._busy.add(loc)
         try:
-            parts = set()
-            for d in ds:
-                desc = self.def_desc(d, depth + 1)
-                if d[0] == 'assign' and d[2].rhs.strip().startswith('const '):
-                    ctl = sorted(filter(None, (self.branch_atom(a, s_) for a, s_ in self.cd_edges(d[1]))))
-                    desc = '[%s] %s' % (' & '.join(ctl), desc) if ctl else desc
-                parts.add(desc)
-            return '{' + ' | '.join(sorted(parts)) + '}'
+            if len(ds) == 1:
+                desc = self.def_desc(ds[0], depth)
+            else:
+                parts = set()
+                for d in ds:
+                    dd = self.def_desc(d, depth + 1)
+                    if d[0] == 'assign' and d[2].rhs.strip().startswith('const '):
+                        ctl = sorted(filter(None, (self.branch_atom(a, s_) for a, s_ in self.cd_edges(d[1]))))
+                        dd = '[%s] %s' % (' & '.join(ctl), dd) if ctl else dd
+                    parts.add(dd)
+                desc = '{' + ' | '.join(sorted(parts)) + '}'
         finally:
             self._busy.discard(loc)
+        if len(desc) > 360:
+            desc = desc[:80] + '…#' + hashlib.sha1(desc.encode()).hexdigest()[:12]
+        if not self._cyc:
+            self._memo[loc] = desc
+        self._cyc = self._cyc or outer_cyc
+        return desc
 
     def def_desc(self, d, depth):
         kind, bid, obj = d
@@ -198,6 +247,8 @@ class Exits:
             if short in ('deref', 'deref_mut', 'as_ref', 'clone', 'into', 'to_owned', 'borrow', 'as_slice', 'unpack', 'from') and obj.args:
                 return self.val(obj.args[0], depth + 1)
             if short == 'branch' and 'Try' in k and obj.args:
+                return self.val(obj.args[0], depth + 1)
+            if k in _PASS_CALLS and obj.args:
                 return self.val(obj.args[0], depth + 1)
             if short == 'into_iter' and obj.args:
                 return self.val(obj.args[0], depth + 1)
@@ -269,13 +320,17 @@ class Exits:
         if not m:
             return 'closure'
         span = m.group(1).strip()
-        tgt = None
-        for c in self.prog.closures_of(self.prog.parent_fn(self.body)) + self.prog.closures_of(self.body):
-            hdr = getattr(c, 'sig_args', '') or ''
-            if span in hdr or span in (c.raw_name or ''):
-                tgt = c
-                break
-        if tgt is None or tgt is self.body or tgt.name in _CLOSURE_STACK:
+        idx = getattr(self.prog, '_closure_by_span', None)
+        if idx is None:
+            idx = {}
+            for c in self.prog.bodies:
+                if '{closure' in (c.name or '') and c.params:
+                    mm = re.search(r'\[closure@([^\]]+)\]', c.params[0][1])
+                    if mm:
+                        idx[mm.group(1).strip()] = c
+            self.prog._closure_by_span = idx
+        tgt = idx.get(span)
+        if tgt is None or tgt.name == self.body.name or tgt.name in _CLOSURE_STACK:
             return 'closure'
         _CLOSURE_STACK.append(tgt.name)
         try:
@@ -366,6 +421,140 @@ class Exits:
             return nm(rest[0])
         return 'not ' + '|'.join(nm(v) for v in sorted(other))
 
+    # ---- success / failure values through inlined helpers ("jump threading" at description level) -----
+    def source_local(self, loc):
+        """Follow value-preserving single definitions (moves, references, Try::branch, map_err / ok_or(_else)) back to the local
+        where the value is constructed or where several definitions meet."""
+        for _ in range(40):
+            ds = self.du.defs.get(loc, [])
+            if len(ds) != 1:
+                return loc
+            kind, bid, obj = ds[0]
+            if kind == 'assign':
+                m = re.fullmatch(r"(?:move |copy |&(?:mut )?)\(?\*?(_\d+)\)?", obj.rhs.strip())
+                if not m:
+                    return loc
+                loc = int(m.group(1)[1:])
+                continue
+            k = mir.callee_key(obj.callee)
+            if (k in _PASS_CALLS or (k.endswith('::branch') and 'Try' in k)) and obj.args:
+                m = re.fullmatch(r"(?:move |copy )?(_\d+)", obj.args[0].strip())
+                if not m:
+                    return loc
+                loc = int(m.group(1)[1:])
+                continue
+            return loc
+        return loc
+
+    def variant_defs(self, loc, seen=None):
+        """[(cls, bid, payload operand | None)] for every definition of loc, cls in 'ok' / 'err' / None (unknown)."""
+        seen = seen if seen is not None else set()
+        if loc in seen:
+            return [(None, None, None)]
+        seen.add(loc)
+        out = []
+        ds = self.du.defs.get(loc, [])
+        if not ds:
+            return [(None, None, None)]
+        for kind, bid, obj in ds:
+            if kind == 'assign':
+                rhs = strip_generics(obj.rhs.strip())
+                m = re.match(r'^(?:\w+::)*(Ok|Err|Some)\((.*)\)$', rhs)
+                if m:
+                    out.append(('ok' if m.group(1) in _OKV else 'err', bid, m.group(2)))
+                    continue
+                if re.match(r'^(?:\w+::)*None$', rhs):
+                    out.append(('err', bid, None))
+                    continue
+                m = re.fullmatch(r"(?:move |copy )\(?\*?(_\d+)\)?", obj.rhs.strip())
+                if m:
+                    out += self.variant_defs(self.source_local(int(m.group(1)[1:])), seen)
+                    continue
+                out.append((None, bid, None))
+            else:
+                k = mir.callee_key(obj.callee)
+                if k.endswith('::from_residual'):
+                    out.append(('err', bid, None))
+                elif (k in _PASS_CALLS or (k.endswith('::branch') and 'Try' in k)) and obj.args and re.fullmatch(r"(?:move |copy )?(_\d+)", obj.args[0].strip()):
+                    out += self.variant_defs(self.source_local(int(re.search(r'_(\d+)', obj.args[0]).group(1))), seen)
+                else:
+                    out.append((None, bid, None))
+        return out
+
+    def variant_payload(self, loc, want, depth):
+        vds = self.variant_defs(self.source_local(loc))
+        if not vds or any(c is None for c, _, _ in vds):
+            return None
+        pays = sorted({self.val(p, depth + 1) for c, b, p in vds if c == want and p is not None})
+        if not pays:
+            return None
+        return pays[0] if len(pays) == 1 else '{' + ' | '.join(pays) + '}'
+
+    def edge_expansion(self, a, s):
+        """If the branch a -> s tests success / failure of a value all of whose definitions are visibly a success or a failure
+        (typically the return value of an inlined helper), the blocks of the compatible definitions; else None."""
+        t = self.body.blocks[a].term
+        if t.kind != 'switchInt':
+            return None
+        m = re.fullmatch(r'(?:move |copy )?(_\d+)', t.discr.strip())
+        if not m:
+            return None
+        d = self.single_def(int(m.group(1)[1:]))
+        if d is None or d[0] != 'assign':
+            return None
+        mm = re.match(r'^discriminant\((.*)\)$', d[2].rhs.strip())
+        if not mm:
+            return None
+        ym = re.search(r'_(\d+)', mm.group(1))
+        if not ym:
+            return None
+        y = int(ym.group(1))
+        ty = self.body.locals.get(y, '') or ''
+        vals = [v for v, tgt in t.cases if tgt == s and v != 'otherwise']
+        other = [v for v, tgt in t.cases if tgt != s and v != 'otherwise']
+        is_otherwise = any(v == 'otherwise' and tgt == s for v, tgt in t.cases)
+        name = self.variant_names(ty, vals, other, is_otherwise)
+        want = 'ok' if name in _OKV else 'err' if name in _ERRV else None
+        if want is None:
+            return None
+        vds = self.variant_defs(self.source_local(y))
+        if not vds or any(c is None for c, _, _ in vds):
+            return None
+        return [(b, p) for c, b, p in vds if c == want]
+
+    def closure_edges(self, x):
+        """Transitive control-dependence edges of block x, with success/failure tests of fully visible values replaced by the
+        control dependences of the compatible definitions."""
+        edges = []
+        seen = set()
+        stack = [x]
+        while stack:
+            b = stack.pop()
+            if b in seen:
+                continue
+            seen.add(b)
+            for (a, s) in self.cd_edges(b):
+                ex = self.edge_expansion(a, s)
+                if ex is None:
+                    if (a, s) not in edges:
+                        edges.append((a, s))
+                else:
+                    for db, _ in ex:
+                        stack.append(db)
+                stack.append(a)
+        return edges
+
+    def immediate_edges(self, x, depth=0):
+        out = []
+        for (a, s) in self.cd_edges(x):
+            ex = self.edge_expansion(a, s)
+            if ex is None or depth > 6:
+                out.append((a, s))
+            else:
+                for db, _ in ex:
+                    out += self.immediate_edges(db, depth + 1)
+        return out
+
     # ---- control dependence -------------------------------------------------------------------
     def cd_edges(self, x):
         """Immediate control dependences of block x as (branch block, successor) edges."""
@@ -428,15 +617,52 @@ class Exits:
             return 'accept'
         return 'exact'
 
+    def norm_label(self, label, cls):
+        mm = re.search(r'StatusCode::([A-Z][A-Za-z0-9]+)', label)
+        if mm and cls in ('reject', 'accept') and not label.startswith(('Ok(', 'Some(')):
+            return ('Err(Status::%s)' if label.startswith('Err(') else 'Status::%s') % mm.group(1)
+        m = re.match(r'^Result::from_residual\((.*)\)$', label)
+        if m:
+            inner = m.group(1)
+            inner = inner[:-2] if inner.endswith('.0') else inner
+            return 'fail(%s)' % inner
+        return label
+
+    def flatten(self, bid, span, label, raw, depth=0, force=None):
+        """An exit that propagates the failure of a fully visible value (`helper(..)?` with the helper inlined) is replaced by
+        one exit per failing definition of that value."""
+        cls = force or self.classify(label, raw, self.body.ret)
+        if cls == 'reject' and depth < 6:
+            imm = self.cd_edges(bid)
+            exp = [(a, s, self.edge_expansion(a, s)) for (a, s) in imm]
+            if len(imm) == 1 and exp[0][2] is not None and exp[0][2]:
+                out = []
+                for db, pay in exp[0][2]:
+                    blk = self.body.blocks[db]
+                    t = blk.term
+                    if t.kind == 'call' and 'from_residual' in (t.callee or ''):
+                        lab, rw = self.call_desc(t), t.callee
+                    else:
+                        lab, rw = None, ''
+                        for st in blk.stmts:
+                            if st.kind == 'assign' and re.search(r'::Err\(|::None\b', strip_generics(st.rhs)):
+                                lab, rw = self.rvalue(st.rhs), st.rhs
+                        if lab is None:
+                            lab, rw = label, raw
+                    out += self.flatten(db, span, lab, rw, depth + 1, force='reject')
+                return out
+        lab = self.norm_label(label, cls)
+        if force and not lab.startswith(('fail(', 'Err(')):
+            lab = 'fail(%s)' % lab
+        return [{'bid': bid, 'span': span, 'label': lab, 'cls': cls}]
+
     def census(self):
-        raws = self.raw_exits()
         exits = []
-        for bid, span, label, raw in raws:
-            cls = self.classify(label, raw, self.body.ret)
-            mm = re.search(r'StatusCode::([A-Z][A-Za-z0-9]+)', label)
-            if mm and cls in ('reject', 'accept') and not label.startswith(('Ok(', 'Some(')):
-                label = ('Err(Status::%s)' if label.startswith('Err(') else 'Status::%s') % mm.group(1)
-            exits.append({'bid': bid, 'span': span, 'label': label, 'cls': cls, 'edges': self.all_cd_edges(bid)})
+        for bid, span, label, raw in self.raw_exits():
+            exits += self.flatten(bid, span, label, raw)
+        for e in exits:
+            e['edges'] = self.closure_edges(e['bid'])
+            e['imm'] = self.immediate_edges(e['bid'])
         # a moved Status that is returned on its own is_ok() == false edge is a rejection
         for e in exits:
             if e['cls'] == 'exact':
@@ -446,7 +672,6 @@ class Exits:
         exit_blocks = {}
         for e in exits:
             exit_blocks.setdefault(e['bid'], []).append(e)
-        # pure-check pass edges: (a, s) such that some other successor of a reaches only non-accepting exits
         rej_only = {}
 
         def only_rejects_from(start):
@@ -458,6 +683,8 @@ class Exits:
             rej_only[start] = ok
             return ok
         for e in exits:
+            e['trigger'] = sorted(filter(None, {self.branch_atom(a, s) for (a, s) in e['imm']}))
+            e['full'] = sorted(filter(None, {self.branch_atom(a, s) for (a, s) in e['edges']}))
             atoms = set()
             for (a, s) in e['edges']:
                 if e['cls'] != 'accept':
